@@ -284,7 +284,11 @@ impl Request {
         self.path.init_with_request_bytes(path)?;
 
         if r.consume_oneof([" ", "?"]).ok_or_else(Response::BadRequest)? == 1 {
-            self.query = QueryParams::new(r.read_while(|b| b != &b' '));
+            let query = r.read_while(|b| b != &b' ');
+            if !query.iter().all(u8::is_ascii_graphic) {
+                return Err(Response::BadRequest())
+            }
+            self.query = QueryParams::new(query);
             r.advance_by(1);
         }
 
